@@ -9,6 +9,7 @@ and fails closed (Unsupported) when it is not the shape the hand-written skeleto
 Model/CfgMerge.v / Model/CfgCli.v was written for.
 """
 import ast
+import re
 
 from translator.lib import (Unsupported, cmp_op, coq_list, coq_str_list, coq_string, const_value, defn, find_assign,
                             find_func, fstring_parts, parse, source, str_elems)
@@ -433,8 +434,9 @@ def save_and_load():
     """save_config validates before writing; set converts, validates, saves; get prints cfg[key]"""
     mod = parse(S)
     b = [ast.unparse(x) for x in _body(find_func(mod, "save_config"))]
-    _expect(b == ["path = config_path or CONFIG_LOCATIONS[0]", "path.parent.mkdir(parents=True, exist_ok=True)", "_validate_before_save(config)",
-                  "_write_and_log_config(config, path)"], f"save_config: {b}")
+    _expect(len(b) == 4 and re.fullmatch(r"path = config_path or CONFIG_LOCATIONS\[\d+\]", b[0]) is not None
+            and b[1:] == ["path.parent.mkdir(parents=True, exist_ok=True)", "_validate_before_save(config)", "_write_and_log_config(config, path)"],
+            f"save_config: {b}")
     vb = _body(find_func(mod, "_validate_before_save"))
     _unparse_is(vb[0], "is_valid, errors = validate_config(config)", "_validate_before_save")
     _expect(isinstance(vb[1], ast.If) and ast.unparse(vb[1].test) == "not is_valid" and isinstance(vb[1].body[-1], ast.Raise), "_validate_before_save raises")
@@ -483,6 +485,64 @@ def save_and_load():
             + defn("set_msg_prefix", "string", coq_string("Set ")) + defn("set_msg_mid", "string", coq_string(" = ")))
 
 
+LOCATIONS: list = []   # (base, relative path) per entry of CONFIG_LOCATIONS, filled by config_locations() (read by the harness)
+
+
+def config_locations():
+    """the default-location chain: CONFIG_LOCATIONS (order, base directory, relative name), the location save_config writes
+    when no --config is given, and the shapes of load_config / _load_from_default_locations / _try_load_from_location
+    (first existing location whose merged configuration validates; unreadable and invalid ones are skipped)"""
+    mod = parse(S)
+    locs = find_assign(mod, "CONFIG_LOCATIONS")
+    _expect(isinstance(locs, ast.List) and locs.elts, "CONFIG_LOCATIONS: non-empty list literal")
+    rows = []
+    for e in locs.elts:
+        parts = []
+        while isinstance(e, ast.BinOp) and isinstance(e.op, ast.Div):
+            c = const_value(e.right)
+            _expect(isinstance(c, str) and c and "/" not in c, f"CONFIG_LOCATIONS: path component {ast.unparse(e.right)}")
+            parts.insert(0, c)
+            e = e.left
+        src = ast.unparse(e)
+        if src == "Path.cwd()" and parts:
+            rows.append(("cwd", "/".join(parts)))
+        elif src == "Path.home()" and parts:
+            rows.append(("home", "/".join(parts)))
+        elif isinstance(e, ast.Call) and ast.unparse(e.func) == "Path" and len(e.args) == 1 and not parts \
+                and isinstance(const_value(e.args[0]), str) and const_value(e.args[0]).startswith("/"):
+            rows.append(("abs", const_value(e.args[0])))
+        else:
+            raise Unsupported(f"CONFIG_LOCATIONS: entry of unknown shape `{ast.unparse(e)}`")
+    _expect(len(set(rows)) == len(rows), "CONFIG_LOCATIONS: duplicate entries")
+    for _, rel in rows:
+        _expect(rel.endswith((".yaml", ".yml", ".json")), f"CONFIG_LOCATIONS: suffix of {rel}")
+    sv = ast.unparse(_body(find_func(mod, "save_config"))[0])
+    m = re.fullmatch(r"path = config_path or CONFIG_LOCATIONS\[(\d+)\]", sv)
+    _expect(m is not None, f"save_config target: {sv}")
+    idx = int(m.group(1))
+    _expect(idx < len(rows), "save_config target index outside CONFIG_LOCATIONS")
+    lc = [ast.unparse(x) for x in _body(find_func(mod, "load_config"))]
+    _expect(lc == ["if config_path:\n    return _load_from_explicit_path(config_path)", "return _load_from_default_locations()"], f"load_config: {lc}")
+    dl = [ast.unparse(x) for x in _body(find_func(mod, "_load_from_default_locations"))]
+    _expect(dl == ["existing_locations = (loc for loc in CONFIG_LOCATIONS if loc.exists())",
+                   "for location in existing_locations:\n    loaded_config = _try_load_from_location(location)\n    if loaded_config:\n        return loaded_config",
+                   "logger.debug('No CLI config file found, using defaults')", "return DEFAULT_CONFIG.copy()"], f"_load_from_default_locations: {dl}")
+    tl = [ast.unparse(x) for x in _body(find_func(mod, "_try_load_from_location"))]
+    _expect(tl == ["try:\n    config = _load_and_merge_config(location)\n    is_valid, errors = validate_config(config)\n    if not is_valid:\n"
+                   "        logger.warning('Invalid config at %s: %s', location, errors)\n        return None\n"
+                   "    logger.info('Loaded config from: %s', location)\n    return config\n"
+                   "except ConfigError as e:\n    logger.warning('Failed to load config from %s: %s', location, e)\n    return None"],
+            f"_try_load_from_location: {tl}")
+    lf = [ast.unparse(x) for x in _body(find_func(mod, "_load_config_file"))]
+    _expect(lf == ["try:\n    return parse_config_file(path)\nexcept ConfigParseError as e:\n    raise ConfigError(str(e)) from e\n"
+                   "except Exception as e:\n    raise ConfigError(f'Failed to load config from {path}: {e}') from e"], f"_load_config_file: {lf}")
+    mainf = ast.unparse(find_func(parse("src/cli/main.py"), "cli"))
+    _expect("ctx.obj['config'] = load_config()" in mainf, "cli group: load_config() without --config")
+    LOCATIONS[:] = rows
+    return (defn("config_locations", "list (string * string)", coq_list([f"({coq_string(a)}, {coq_string(b)})" for a, b in rows]))
+            + defn("save_location_index", "nat", str(idx)))
+
+
 def convert_value():
     f = find_func(parse(C), "_convert_value_type")
     b = _body(f)
@@ -521,4 +581,5 @@ ITEMS = [
     ("validators", validators),
     ("save_and_load", save_and_load),
     ("convert_value", convert_value),
+    ("config_locations", config_locations),
 ]
